@@ -169,12 +169,14 @@ func (api *PublicFilterAPI) NewPendingTransactionFilter() rpc.ID {
 					continue
 				}
 
+				txHash, isEthTx := ethTxHashOf(tx)
+				if !isEthTx {
+					continue
+				}
+
 				api.filtersMu.Lock()
 				if f, found := api.filters[pendingTxSub.ID()]; found {
-					ethTx, ok := tx.GetMsgs()[0].(*evmtypes.MsgEthereumTx)
-					if ok {
-						f.hashes = append(f.hashes, ethTx.AsTransaction().Hash())
-					}
+					f.hashes = append(f.hashes, txHash)
 				}
 				api.filtersMu.Unlock()
 			case <-errCh:
@@ -233,9 +235,8 @@ func (api *PublicFilterAPI) NewPendingTransactions(ctx context.Context) (*rpc.Su
 					continue
 				}
 
-				ethTx, ok := tx.GetMsgs()[0].(*evmtypes.MsgEthereumTx)
-				if ok {
-					_ = notifier.Notify(rpcSub.ID, ethTx.AsTransaction().Hash()) // #nosec G703
+				if txHash, isEthTx := ethTxHashOf(tx); isEthTx {
+					_ = notifier.Notify(rpcSub.ID, txHash) // #nosec G703
 				}
 			case <-rpcSub.Err():
 				pendingTxSub.Unsubscribe(api.events)
